@@ -492,3 +492,31 @@ fn c01_svg_lookup_any() {
         kani::cover!(true, "table accepted");
     }
 }
+
+/// Item variation data sub-table (HVAR / MVAR / GDEF / CFF2 deltas): arbitrary counts - including
+/// a wordDeltaCount larger than regionIndexCount and the LONG_WORDS flag - and any row index:
+/// `delta_set` answers with a row or with `None`, never with a panic, and only for rows that
+/// exist.
+// @bound ItemVariationData of 24 bytes, every byte symbolic (itemCount, wordDeltaCount incl. the flag bit, regionIndexCount, contents), truncated anywhere; row index any u16
+// @release
+#[kani::proof]
+#[kani::unwind(6)]
+fn c01_item_variation_data_rows() {
+    use allsorts::tables::variable_fonts::ItemVariationData;
+    let buf: [u8; 24] = kani::any();
+    let len = any_len(24);
+    if let Ok(data) = ReadScope::new(&buf[..len]).read::<ItemVariationData<'_>>() {
+        let index: u16 = kani::any();
+        let row = data.delta_set(index);
+        let item_count = be16(&buf, 0);
+        // rows of zero length (no regions) are empty whatever the index; otherwise only rows that exist
+        let raw = be16(&buf, 2);
+        let row_length = (be16(&buf, 4) as usize + (raw & 0x7FFF) as usize) * if raw & 0x8000 != 0 { 2 } else { 1 };
+        if row.is_some() && row_length > 0 {
+            assert!(index < item_count, "a row beyond itemCount");
+        }
+        kani::cover!(row.is_some(), "row returned");
+        kani::cover!(row.is_none() && index < item_count, "malformed row layout refused");
+        kani::cover!(be16(&buf, 2) & 0x8000 != 0 && row.is_some(), "long words");
+    }
+}
